@@ -211,7 +211,7 @@ where
     let schema: OwnedDataModelType = T::SCHEMA.into();
     let shape = T::shape();
     t.st.count("types");
-    let rounds = t.cfg.scale(3, 150, 4000);
+    let rounds = t.cfg.scale(3, 1500, 30_000);
     // every enum variant of the top-level type (and nested ones by random generation)
     let mut done = 0;
     for i in 0..rounds {
@@ -268,7 +268,7 @@ pub fn run(cfg: &Cfg) -> Report {
         }
         crate::for_each_shaped_schema_type!(one);
         // ---- types without a HasShape description: values built by hand
-        let n = t.cfg.scale(3, 200, 5000);
+        let n = t.cfg.scale(3, 2000, 40_000);
         for k in 0..n {
             if t.cfg.expired() {
                 break;
